@@ -14,6 +14,11 @@
 //                                                             must read the same value (Python's json does the same
 //                                                             in the c04_py stage)
 // and once per tree the copy clauses (copy-*).
+// Subcheck `assign`: a case is a PAIR (target tree, source tree); `target = source` (copy assignment onto an object that
+// already holds a value of any kind - in particular a dictionary sharing some keys with the source) must give a value
+// equal to the source and independent of it in both directions (assign-*).
+// Subcheck `after_reject`: a case is [texts parsed before (mostly malformed; the outcome of parsing them is not
+// asserted), one tree, one option mask]; the round-trip clauses above must hold whatever the same thread parsed before.
 // The signature carries the kind of the smallest sub-tree that fails on its own and the smallest failing mask.
 #include <float.h>
 #include <math.h>
@@ -112,10 +117,11 @@ struct Problem {
 
 static std::string clip(const std::string& t, size_t n = 160) { return jt::show_bytes(t.size() > n ? t.substr(0, n) : t) + (t.size() > n ? "..." : ""); }
 
-static Problem check_mask(const Node& model, const JSON& v, uint32_t mask, bool has_float) {
+static Problem check_mask(const Node& model, const JSON& v, uint32_t mask, bool has_float, const std::function<void()>* before_parse = nullptr) {
   std::string t = v.serialize(mask);
   JSON p;
   try {
+    if (before_parse) (*before_parse)();
     p = JSON::parse(t);
   } catch (const std::exception& e) {
     return {"parse-rejects-own-output", cat("JSON::parse threw ", typeid(e).name(), " (", e.what(), ") on serialize(v, 0x", std::hex, mask, ") = ", clip(t))};
@@ -129,6 +135,7 @@ static Problem check_mask(const Node& model, const JSON& v, uint32_t mask, bool 
   if ((mask & ~kStandardBits) == 0) {
     JSON ps;
     try {
+      if (before_parse) (*before_parse)();
       ps = JSON::parse(t, true);
     } catch (const std::exception& e) {
       return {"strict-rejects-standard-output", cat("strict JSON::parse threw ", typeid(e).name(), " (", e.what(), ") on serialize(v, 0x", std::hex, mask, ") = ", clip(t))};
@@ -407,6 +414,404 @@ static Case gen_chain() {
   return c;
 }
 
+// ---------------------------------------------------------------- assign: copy assignment onto a live target
+//
+// "copies are deep and compare equal to their source" for the copy made by operator=(const JSON&) when the left-hand
+// side already holds a value: whatever the target held before (null, scalar, string, list, a dictionary with keys the
+// source has / lacks, nested dictionaries), afterwards it equals the source, is structurally the source's model, and
+// neither object sees the other's later mutation or destruction.
+// Case: tokens of the target tree followed by tokens of the source tree.
+
+static std::string pair_class(const Node& t, const Node& s) {
+  std::string r = std::string(jt::kind_name(t.k)) + "<-" + jt::kind_name(s.k);
+  if (t.k == Node::DICT && s.k == Node::DICT) {
+    size_t only_target = 0, shared = 0;
+    for (const auto& e : t.ents) (s.has_key(e.first) ? shared : only_target)++;
+    r += std::string(only_target ? ":target-has-extra-keys" : ":target-keys-subset") + (shared ? ":shared-keys" : "");
+  }
+  return r;
+}
+
+static void check_assigned(const JSON& a, const JSON& v, const Node& src_model, const char* what, const std::string& cls) {
+  std::string sv = v.serialize(kSort), sa = a.serialize(kSort);
+  VCHECK(a == v, "assign-not-equal:" + cls, what, ": copy == source is false; copy = ", clip(sa), " source = ", clip(sv));
+  VCHECK(v == a, "assign-not-equal:" + cls, what, ": source == copy is false; copy = ", clip(sa), " source = ", clip(sv));
+  VCHECK(!(a != v), "assign-not-equal:" + cls, what, ": copy != source is true; copy = ", clip(sa), " source = ", clip(sv));
+  jt::Diff d = jt::diff(jt::from_json(a), src_model, jt::SAME_KIND_SIX_DIGITS);
+  VCHECK(d.none(), "assign-differs:" + d.cls + ":" + cls, what, ": the assigned copy differs from its source at ", d.text, "; copy = ", clip(sa), " source = ", clip(sv));
+  VCHECK(sa == sv, "assign-serializes-differently:" + cls, what, ": copy serializes to ", clip(sa), " source to ", clip(sv));
+}
+
+static void run_assign(const Case& c) {
+  Dec dec{c};
+  Node T = dec.node(), S = dec.node();
+  if (dec.ni != c.n.size() || dec.si != c.s.size()) throw std::logic_error("case: trailing tokens");
+  std::string cls = pair_class(T, S);
+  const JSON v = jt::build(S);
+  const std::string before = v.serialize(kSort);
+  auto source_intact = [&](const char* what) {
+    jt::Diff d = jt::diff(jt::from_json(v), S, jt::SAME_KIND_SIX_DIGITS);
+    VCHECK(d.none(), "assign-damaged-source:" + cls, what, ": the source changed at ", d.text);
+    VCHECK(v.serialize(kSort) == before, "assign-damaged-source:" + cls, what, ": the source serializes to ", clip(v.serialize(kSort)), " instead of ", clip(before));
+  };
+  {
+    // 1. target = source; then every container of the copy is mutated and the copy destroyed
+    JSON t = jt::build(T);
+    t = v;
+    check_assigned(t, v, S, "target = source", cls);
+    mutate_all(t);
+    source_intact("after mutating the assigned copy");
+  }
+  source_intact("after destroying the assigned copy");
+  {
+    // 2. the other direction: the source is mutated and destroyed, the copy must not notice
+    JSON t = jt::build(T);
+    {
+      JSON src = jt::build(S);
+      t = src;
+      mutate_all(src);
+      jt::Diff d = jt::diff(jt::from_json(t), S, jt::SAME_KIND_SIX_DIGITS);
+      VCHECK(d.none(), "assign-shares-state:" + cls, "mutating the source after `target = source` changed the copy at ", d.text);
+    }
+    check_assigned(t, v, S, "target = source (source destroyed afterwards)", cls);
+  }
+  {
+    // 3. the target is an element of a list / a value of a dictionary; its siblings are untouched
+    JSON l = JSON::list();
+    l.emplace_back(jt::build(T));
+    l.emplace_back(jt::build(T));
+    l.at(0) = v;
+    check_assigned(l.at(0), v, S, "list.at(0) = source", cls + ":in-list");
+    jt::Diff d = jt::diff(jt::from_json(l.at(1)), T, jt::SAME_KIND_SIX_DIGITS);
+    VCHECK(d.none() && l.size() == 2, "assign-touches-sibling:" + cls, "assigning to list.at(0) changed list.at(1) at ", d.text);
+    JSON m = JSON::dict();
+    m.emplace("k", jt::build(T));
+    m.emplace("other", jt::build(T));
+    m.at("k") = v;
+    check_assigned(m.at("k"), v, S, "dict.at(\"k\") = source", cls + ":in-dict");
+    d = jt::diff(jt::from_json(m.at("other")), T, jt::SAME_KIND_SIX_DIGITS);
+    VCHECK(d.none() && m.size() == 2, "assign-touches-sibling:" + cls, "assigning to dict.at(\"k\") changed dict.at(\"other\") at ", d.text);
+  }
+  {
+    // 4. a second assignment onto the same object: back to (a fresh copy of) what it held at first
+    JSON t = jt::build(T);
+    const JSON first = jt::build(T);
+    t = v;
+    t = first;
+    check_assigned(t, first, T, "target = source; target = former value", pair_class(S, T) + ":second-assignment");
+  }
+  source_intact("at the end");
+
+  jt::Stats st;
+  jt::stats_into(S, st);
+  jt::stats_into(T, st);
+  Ctx& x = ctx();
+  x.cls("assign:" + cls);
+  if (T.k == Node::DICT && S.k == Node::DICT) {
+    bool extra = false;
+    for (const auto& e : T.ents) extra |= !S.has_key(e.first);
+    if (extra) x.nontrivial_case(); // the target holds a key the source lacks
+  }
+}
+
+// a structural variation of `n`: the same kind with entries dropped / added / replaced (recursively), so that a
+// container target shares part of its shape and keys with the source
+static Node gen_node(int depth, int& budget);
+static std::string gen_bytes();
+static Node gen_variation(const Node& n, int depth, int& budget) {
+  budget--;
+  if (budget <= 0 || depth > 6) return vg::coin() ? n : Node::null();
+  switch (n.k) {
+    case Node::DICT: {
+      Node r = Node::dict();
+      unsigned style = vg::below(4); // 0: mixed, 1: keep all keys, 2: drop many, 3: disjoint-ish
+      for (const auto& e : n.ents) {
+        unsigned q = vg::below(6);
+        bool drop = style == 1 ? false : style == 2 ? q < 4 : style == 3 ? q < 5 : q < 2;
+        if (drop) continue;
+        if (q == 5) r.add(e.first, gen_node(depth + 1, budget));
+        else if (q >= 3) r.add(e.first, gen_variation(e.second, depth + 1, budget));
+        else r.add(e.first, e.second);
+      }
+      size_t extra = vg::below(4);
+      for (size_t j = 0; j < extra && budget > 0; j++) {
+        std::string key = vg::chance(2, 3) ? std::string(1, static_cast<char>('a' + vg::below(6))) : gen_bytes();
+        r.add(key, vg::coin() ? gen_node(depth + 1, budget) : Node::integer(vg::range(0, 9)));
+      }
+      return r;
+    }
+    case Node::LIST: {
+      Node r = Node::list();
+      for (const auto& ch : n.items) {
+        unsigned q = vg::below(6);
+        if (q == 0) continue;
+        if (q == 1) r.items.push_back(gen_node(depth + 1, budget));
+        else if (q <= 3) r.items.push_back(gen_variation(ch, depth + 1, budget));
+        else r.items.push_back(ch);
+      }
+      if (vg::chance(1, 3) && budget > 0) r.items.push_back(gen_node(depth + 1, budget));
+      return r;
+    }
+    default:
+      return vg::coin() ? n : gen_node(6, budget);
+  }
+}
+
+static Node gen_rooted(int& budget) {
+  // a dictionary at the root three times out of four (dictionaries are where assignment has keys to reconcile)
+  unsigned q = vg::below(8);
+  if (q >= 6) return gen_node(0, budget);
+  Node n = q == 5 ? Node::list() : Node::dict();
+  size_t cnt = vg::scaled(7);
+  for (size_t j = 0; j < cnt && budget > 0; j++) {
+    Node v = vg::chance(1, 3) ? Node::integer(vg::range(0, 9)) : gen_node(1, budget);
+    if (n.k == Node::LIST) n.items.push_back(std::move(v));
+    else n.add(vg::chance(2, 3) ? std::string(1, static_cast<char>('a' + vg::below(6))) : gen_bytes(), std::move(v));
+  }
+  return n;
+}
+
+static Case gen_assign() {
+  int budget = 4 + static_cast<int>(vg::scaled(30));
+  Node S = gen_rooted(budget);
+  Node T;
+  int b2 = 4 + static_cast<int>(vg::scaled(30));
+  switch (vg::below(8)) {
+    case 0: T = gen_node(6, b2); break; // a leaf: null, bool, number, string
+    case 1: T = gen_rooted(b2); break; // an unrelated tree
+    case 2: T = gen_variation(gen_rooted(b2), 0, b2); break;
+    default: T = gen_variation(S, 0, b2); break; // shares part of its shape and keys with the source
+  }
+  if (vg::chance(1, 8)) std::swap(S, T);
+  Case c("assign");
+  enc(T, c);
+  enc(S, c);
+  return c;
+}
+
+// every ordered pair (target, source) over a small universe: leaves, lists, and every dictionary over the keys a, b, c
+// whose values are 1, {"x":1} or {"y":2} (64 dictionaries: every subset/superset/overlap relation between the key sets
+// of target and source, one level down too)
+static void enum_assign(Enum& e) {
+  std::vector<Node> u;
+  u.push_back(Node::null());
+  u.push_back(Node::boolean(true));
+  u.push_back(Node::integer(0));
+  u.push_back(Node::real(1.5));
+  u.push_back(Node::str(""));
+  u.push_back(Node::str("a"));
+  u.push_back(Node::list());
+  Node inner[3];
+  inner[0] = Node::integer(1);
+  inner[1] = Node::dict();
+  inner[1].add("x", Node::integer(1));
+  inner[2] = Node::dict();
+  inner[2].add("y", Node::integer(2));
+  {
+    Node l = Node::list();
+    l.items.push_back(Node::integer(1));
+    u.push_back(l);
+    l.items.push_back(inner[1]);
+    u.push_back(l);
+    Node l2 = Node::list();
+    l2.items.push_back(inner[2]);
+    u.push_back(l2);
+  }
+  for (unsigned code = 0; code < 64; code++) {
+    Node d = Node::dict();
+    for (unsigned k = 0; k < 3; k++) {
+      unsigned sel = (code >> (2 * k)) & 3;
+      if (sel) d.add(std::string(1, static_cast<char>('a' + k)), inner[sel - 1]);
+    }
+    u.push_back(d);
+  }
+  uint64_t idx = 0;
+  for (const auto& t : u)
+    for (const auto& s : u) {
+      if (e.stop) return;
+      if (!e.mine(idx++)) continue;
+      Case c("assign");
+      enc(t, c);
+      enc(s, c);
+      e.exec(c);
+    }
+  e.complete(cat("every ordered (target, source) pair over ", u.size(), " values: null, bool, int, float, two strings, four lists and all 64 dictionaries over the keys a,b,c with values 1 / {\"x\":1} / {\"y\":2}"));
+}
+
+// ---------------------------------------------------------------- after_reject: the round trip after other parses on the same thread
+//
+// The statement quantifies over values and options only: parse(serialize(v, o)) == v must hold whatever the thread
+// parsed before, including texts the parser rejected half-way (inside a string token, a number, a container).
+// Case: n = [mask, P, then P x (kind, a, b), then the tree tokens], s = [texts of the literal preludes..., tree strings...]
+//   kind 0: the next literal text                                   (a = strict flag)
+//   kind 1: serialize(v, b & 63) cut after (b >> 8) mod (len+1) bytes (a = strict flag): input ending anywhere, often mid-string
+//   kind 2: serialize(v, b & 63) with the byte at (b >> 16) mod len replaced by byte (b >> 8) & 255 (a = strict flag)
+// Parsing a prelude may succeed or throw std::exception; neither is asserted here (C05 owns the parser's error behaviour).
+
+static void run_after_reject(const Case& c) {
+  uint32_t mask = static_cast<uint32_t>(c.u(0)) & 63;
+  size_t P = c.u(1);
+  if (P > 16) throw std::logic_error("case: too many preludes");
+  Dec dec{c};
+  dec.ni = 2 + 3 * P;
+  size_t literals = 0;
+  for (size_t k = 0; k < P; k++) literals += c.u(2 + 3 * k) == 0;
+  dec.si = literals;
+  Node model = dec.node();
+  if (dec.ni != c.n.size() || dec.si != c.s.size()) throw std::logic_error("case: trailing tokens");
+  jt::Stats st;
+  jt::stats_into(model, st);
+  JSON v = jt::build(model);
+
+  std::vector<std::pair<std::string, bool>> texts;
+  size_t lit = 0;
+  for (size_t k = 0; k < P; k++) {
+    uint64_t kind = c.u(2 + 3 * k), a = c.u(3 + 3 * k), b = c.u(4 + 3 * k);
+    std::string t;
+    if (kind == 0) {
+      t = c.str(lit++);
+    } else if (kind == 1) {
+      t = v.serialize(b & 63);
+      t.resize((b >> 8) % (t.size() + 1));
+    } else if (kind == 2) {
+      t = v.serialize(b & 63);
+      if (!t.empty()) t[(b >> 16) % t.size()] = static_cast<char>((b >> 8) & 0xFF);
+    } else {
+      throw std::logic_error("case: bad prelude kind");
+    }
+    texts.emplace_back(std::move(t), (a & 1) != 0);
+  }
+  uint64_t rejected = 0, accepted = 0;
+  std::function<void()> prelude = [&]() {
+    for (const auto& t : texts) {
+      try {
+        JSON::parse(t.first, t.second);
+        accepted++;
+      } catch (const std::exception&) {
+        rejected++;
+      }
+    }
+  };
+  Problem p = check_mask(model, v, mask, st.has_float, &prelude);
+  if (!p.none()) {
+    // does the same (value, mask) fail without the prelude? then it is the plain round-trip defect
+    Problem alone = check_mask(model, v, mask, st.has_float);
+    char mb[16];
+    snprintf(mb, sizeof(mb), "%02x", mask);
+    std::string shown;
+    for (const auto& t : texts) shown += (shown.empty() ? "" : ", ") + clip(t.first, 40);
+    VFAIL(p.clause + (alone.none() ? ":only-after-other-parses" : "") + ":opts=" + mb, p.msg, "; parsed before on the same thread: ", shown);
+  }
+  Ctx& x = ctx();
+  if (rejected && st.nodes > 1) x.nontrivial_case();
+  x.cls(rejected ? "after_reject:some-prelude-rejected" : "after_reject:no-prelude-rejected");
+}
+
+static std::string gen_prelude_text() {
+  static const std::vector<std::string> contexts = {"", "", "[", "{", "{\"k\":", "[1,", "[\"ok\",", "{\"a\":1,", " \n[ ", "[[{\"q\":[", "{\"a\":\"b\",\"c\":"};
+  static const std::string body_alphabet = "abcxyz019 _-:,{}[]/\x01\x7f\x80\xff";
+  std::string pre = contexts[vg::below(contexts.size())];
+  switch (vg::below(10)) {
+    case 0:
+    case 1:
+    case 2:
+    case 3:
+    case 4: {
+      // ends (or goes wrong) inside a string token, as a value or as a dictionary key
+      std::string body = vg::bytes_from(body_alphabet, vg::below(3) ? 1 + vg::below(12) : 0);
+      if (vg::chance(1, 4)) body += vg::pick<std::string>({"\\n", "\\\"", "\\\\", "\\x41", "\\u0041", "\\t"}) + vg::bytes_from(body_alphabet, vg::below(4));
+      std::string tail = vg::pick<std::string>({"\\q", "\\x4", "\\x", "\\xZ1", "\\u12", "\\u", "\\u00G0", "\\u1234", "\\", "", "", "\\a", "\\0", "\\U0041"});
+      std::string close = vg::chance(1, 4) ? "\"" : "";
+      return pre + "\"" + body + tail + close;
+    }
+    case 5:
+    case 6:
+      // goes wrong outside a string token
+      return pre + vg::pick<std::string>({"nul", "tru", "fals", "}", "]", "1 2", "{\"a\" 1}", "[1 2]", "@", "", "-", "0x", "1e", "1.", "//", "/*", "{\"a\":}", "{,}", "[,]", ":", "\"a\":", "[1,]x", "{1:2}", "+1", ".5", "--1"});
+    case 7:
+      // a valid text (accepted; may leave state behind just as well)
+      return vg::pick<std::string>({"[]", "{}", "\"ok\"", "{\"a\":\"b\"}", "[\"x\",1]", "null", "0", "-1.5e3", "[[[]]]", "\"\\u00e9\""});
+    case 8:
+      return pre + gen_bytes();
+    default:
+      return gen_bytes();
+  }
+}
+
+static Case gen_after_reject() {
+  int budget = 3 + static_cast<int>(vg::scaled(24));
+  Node n;
+  if (vg::chance(3, 4)) {
+    n = vg::coin() ? Node::list() : Node::dict();
+    size_t cnt = 1 + vg::scaled(5);
+    for (size_t j = 0; j < cnt && budget > 0; j++) {
+      Node v = vg::chance(1, 3) ? Node::str(gen_bytes()) : gen_node(1, budget);
+      if (n.k == Node::LIST) n.items.push_back(std::move(v));
+      else n.add(gen_bytes(), std::move(v));
+    }
+  } else {
+    n = vg::coin() ? Node::str(gen_bytes()) : gen_node(0, budget);
+  }
+  Case c("after_reject");
+  c.N(vg::chance(1, 3) ? 0 : vg::below(64));
+  size_t P = vg::chance(1, 10) ? 0 : 1 + vg::below(3);
+  c.N(P);
+  static const std::string repl = std::string("\"\\xu{}[],:a \n\xff", 14) + std::string(1, '\0');
+  for (size_t k = 0; k < P; k++) {
+    unsigned q = vg::below(10);
+    uint64_t strict = vg::chance(1, 4) ? 1 : 0;
+    if (q < 6) {
+      c.N(0).N(strict).N(0);
+      c.S(gen_prelude_text());
+    } else if (q < 9) {
+      c.N(1).N(strict).N(vg::below(64) | (vg::below(1u << 20) << 8));
+    } else {
+      c.N(2).N(strict).N(vg::below(64) | (static_cast<uint64_t>(static_cast<unsigned char>(repl[vg::below(repl.size())])) << 8) | (vg::below(1u << 20) << 16));
+    }
+  }
+  enc(n, c);
+  return c;
+}
+
+// every prelude of a fixed list x every tree of a fixed list (strings as root, list item, dictionary value and key)
+static void enum_after_reject(Enum& e) {
+  std::vector<std::string> preludes = {"\"abc", "\"abc\\q", "\"abc\\x4", "\"abc\\u12", "[\"k\\", "{\"key", "{\"a\":\"v\\u1234", "[1,\"two\\xZZ\"]", "\"\\", "[\"a\",\"b", "nul", "[1 2]", "{\"a\":\"b\"}", "\"", "{\"a\":1,\"bcd\\q\":2}"};
+  std::vector<Node> trees;
+  trees.push_back(Node::str("plain"));
+  trees.push_back(Node::str(""));
+  {
+    Node l = Node::list();
+    l.items.push_back(Node::integer(1));
+    l.items.push_back(Node::str("s"));
+    trees.push_back(l);
+    Node d = Node::dict();
+    d.add("key", Node::str("value"));
+    trees.push_back(d);
+    Node d2 = Node::dict();
+    d2.add("n", Node::integer(5));
+    trees.push_back(d2);
+    Node ll = Node::list();
+    ll.items.push_back(d);
+    ll.items.push_back(Node::str("\x01\xff"));
+    trees.push_back(ll);
+    trees.push_back(Node::integer(7));
+  }
+  uint64_t idx = 0;
+  for (const auto& pt : preludes)
+    for (uint64_t strict = 0; strict < 2; strict++)
+      for (const auto& t : trees)
+        for (uint64_t mask : {0u, 4u, 8u, 63u}) {
+          if (e.stop) return;
+          if (!e.mine(idx++)) continue;
+          Case c("after_reject");
+          c.N(mask).N(1).N(0).N(strict).N(0);
+          c.S(pt);
+          enc(t, c);
+          e.exec(c);
+        }
+  e.complete(cat(preludes.size(), " fixed texts (rejected inside a string token: bad escape, incomplete \\x / \\u, end of input; rejected elsewhere; accepted) x default/strict x ", trees.size(), " small trees x 4 option masks"));
+}
+
 // ---------------------------------------------------------------- fixed regression values (enumerated first)
 
 static void enum_fixed(Enum& e) {
@@ -456,5 +861,7 @@ int main(int argc, char** argv) {
   std::vector<SubCheck> checks;
   checks.push_back({"tree", run_tree, gen_tree, 16000, 300000, 100, enum_fixed});
   checks.push_back({"chain", run_tree, gen_chain, 480, 12000, 100, nullptr});
+  checks.push_back({"assign", run_assign, gen_assign, 24000, 400000, 100, enum_assign});
+  checks.push_back({"after_reject", run_after_reject, gen_after_reject, 24000, 400000, 100, enum_after_reject});
   return main_(argc, argv, checks);
 }
